@@ -64,6 +64,7 @@ protected:
 
     virtual LALoopRes solveLookahead();
     std::pair<laresult, Lit> lookaheadLoop();
+    bool allDecisionVarsAssigned() const;
     virtual void cancelUntil(int level) override; // Backtrack until a certain level.
     lbool solve_() override;                      // Does not change the formula
 
